@@ -31,7 +31,7 @@ CHECKS = {
                 also=["C13RO"]),
     "C13RO": dict(spec="TblRequestObject", consts={Q: {}, T: {}}, tables=[("VERIF_TABLE_REQOBJ", "c13ro", "reqobj")], cap={Q: 10**7, T: 10**7}),
     "C11": dict(spec="TblRedirect", consts={Q: {"Depth": 1}, T: {"Depth": 2}},
-                tables=[("VERIF_TABLE_REDIRECT", "c11", "redirect")], cap={Q: 20000, T: 10**7}),
+                tables=[("VERIF_TABLE_REDIRECT", "c11", "redirect")], cap={Q: 30000, T: 10**7}),
 }
 
 
